@@ -262,7 +262,8 @@ c18_types!(
     u8, u16, u32, u64, usize, i8, i16, i32, i64, isize, bool, char, f32, f64, String, (),
     Option<u8>, Option<String>, Option<Vec<u8>>, Option<(u8, bool)>,
     Vec<u8>, Vec<u64>, Vec<String>, Vec<Option<(u8, String)>>, Vec<Vec<i32>>, Vec<f64>, Vec<()>, Vec<char>,
-    [u8; 0], [u8; 1], [u16; 3], [Option<u16>; 3], [String; 2], [u8; 32],
+    [u8; 0], [u8; 1], [u16; 3], [Option<u16>; 3], [String; 2], [u8; 32], [u16; 23], [u16; 24], [i8; 25], [String; 24], [(u8, bool); 24],
+    (u8, u8, u8, u8, u8, u8), (u8, i8, u16, i16, u32, i32, u64, i64, bool, char, String, f64), [[u8; 2]; 3],
     (u8,), (u8, String), (bool, i64, f32), (u64, Option<i8>, char, String), ((u8, u8), [i8; 2], Vec<bool>),
     std::collections::BTreeMap<u8, u8>, std::collections::BTreeMap<String, Vec<i64>>, std::collections::BTreeMap<i32, Option<String>>,
     std::collections::VecDeque<i16>, std::collections::LinkedList<u32>, std::collections::BTreeSet<i64>,
